@@ -178,6 +178,12 @@ def stream_case(draw):
         mutated = mutated or kind != 'none' or src == 'invalid'
         lines.append(b)
     tail = draw(st.sampled_from([b'', b'', b'read m:val', b'\xff']))      # incomplete last line: no reply expected
+    if draw(st.integers(0, 3)) == 0:
+        # a burst of requests filling the read buffer of the handler exactly (a multiple of 1024 bytes)
+        total = sum(len(x) + 1 for x in lines)
+        need = (-total - 6) % 1024
+        lines.append(b'ping ' + b'f' * need)
+        tail = b''
     cuts = [sorted(set(draw(st.lists(st.integers(1, 4000), max_size=6)))) for _ in range(3)]
     return {'kind': 'stream', 'lines': [x.hex() for x in lines], 'tail': tail.hex(), 'cuts': cuts, 'mutated': mutated}
 
@@ -237,7 +243,17 @@ def segmentations(stream, cuts, limit=12):
         s = [c for c in s if c]
         if s not in uniq:
             uniq.append(s)
-    return uniq[:limit]
+    uniq = uniq[:limit]
+    # the peer pauses (longer than the socket time-out of the handler) after every segment: None = silence.
+    # in blocks of the read size of the handler, in one piece, and at the drawn cuts
+    if stream:
+        paused = [[stream, None]]
+        if len(stream) > 1024:
+            paused.append([x for i in range(0, len(stream), 1024) for x in (stream[i:i + 1024], None)])
+        if len(uniq) > 3:
+            paused.append([x for c in uniq[3] for x in (c, None)])
+        uniq += [s for s in paused if s not in uniq]
+    return uniq
 
 
 def judge(ctx, case, lines, out, label=''):
@@ -361,13 +377,16 @@ def check_stream(ctx, case):
                 body = out[:idx]
             outs.append(body)
             if len(seg) >= 2 and case.get('mutated'):
-                ctx.nt((stream, tuple(len(c) for c in seg)))
+                ctx.nt((stream, tuple(-1 if c is None else len(c) for c in seg)))
+            if None in seg:
+                ctx.label('segmentation:with-pauses' + (':buffer-filled-exactly' if any(c and len(c) % 1024 == 0 for c in seg) else ''))
         # (3) identical output for every segmentation
         for seg, body in zip(segs[1:], outs[1:]):
             if body != outs[0]:
                 i = len(os.path.commonprefix([body, outs[0]]))
-                ctx.finding('segmentation:output-differs', dict(case, cuts=[list(itertools.accumulate(len(c) for c in seg[:-1]))[:2000]]),
-                            f'chunks {[len(c) for c in seg][:12]}: ...{body[max(0, i - 30):i + 40]!r} vs one chunk ...{outs[0][max(0, i - 30):i + 40]!r}')
+                ctx.finding('segmentation:output-differs' + (':with-pauses' if None in seg else ''),
+                            dict(case, cuts=[list(itertools.accumulate(len(c) for c in seg[:-1] if c is not None))[:2000]]),
+                            f'chunks {[None if c is None else len(c) for c in seg][:12]}: ...{body[max(0, i - 30):i + 40]!r} vs one chunk ...{outs[0][max(0, i - 30):i + 40]!r}')
                 break
         else:
             ctx.ok('segmentation-independent')
@@ -500,6 +519,8 @@ INTERLEAVE_FIXED = [
      'drivers': [[['assign', 'm0', 'a', 0], ['assign', 'm0', 'a', 0], ['assign', 'm0', 'b', 0], ['assign', 'm0', 'a', 0]]]},
     {'conns': [[['activate', 'm0:_a', 0], ['idn', None, 0], ['activate', 'm0', 0], ['help', None, 0]], [['activate', None, 0], ['help', None, 0]]],
      'drivers': [[['assign', 'm0', 'a', 0], ['error', 'm0', 'b', 0], ['assign', 'm0', 'a', 0]]]},
+    {'conns': [[['activate', None, 0], ['describe', None, 0], ['ping', None, 0]]], 'long_description': True,
+     'drivers': [[['assign', 'm0', 'a', 0], ['assign', 'm0', 'b', 0], ['assign', 'm0', 'a', 0]]]},
 ]
 
 
@@ -532,7 +553,7 @@ def check_interleave(ctx, case):
             if action == '?split-line':
                 ctx.finding('async:line-split-by-other-message', dict(case, kind='interleave'), f'{name}: {data[:120]!r}')
                 return
-    if nasync and any(item[0] == 'help' for script in case['conns'] for item in script):
+    if nasync and any(item[0] in ('help', 'describe') for script in case['conns'] for item in script):
         ctx.nt(('interleave', out['sched'].trace_hash()))
     ctx.ok('no-line-split')
 
@@ -543,11 +564,12 @@ def interleave_case(draw):
     for _ in range(draw(st.integers(1, 2))):
         script = [['activate', draw(st.sampled_from([None, None, 'm0', 'm0:_a'])), 0]]
         for _ in range(draw(st.integers(1, 4))):
-            script.append([draw(st.sampled_from(['help', 'help', 'ping', 'idn', 'activate'])), None, draw(st.sampled_from([0, 0, 0.5]))])
+            script.append([draw(st.sampled_from(['help', 'help', 'ping', 'idn', 'activate', 'describe', 'describe'])), None, draw(st.sampled_from([0, 0, 0.5]))])
         conns.append(script)
     drivers = [[[draw(st.sampled_from(['assign', 'assign', 'read', 'error'])), 'm0', draw(st.sampled_from(['a', 'a', 'b'])), draw(st.sampled_from([0, 0, 0, 0.5]))]
                 for _ in range(draw(st.integers(3, 10)))] for _ in range(draw(st.integers(1, 2)))]
-    return {'kind': 'interleave', 'conns': conns, 'drivers': drivers, 'schedule': draw(st.lists(st.integers(0, 3), min_size=20, max_size=200))}
+    return {'kind': 'interleave', 'conns': conns, 'drivers': drivers, 'schedule': draw(st.lists(st.integers(0, 3), min_size=20, max_size=200)),
+            'long_description': draw(st.booleans())}     # the reply to 'describe' is a line of more than 8 kB
 
 
 def run_shard(ctx, shard):
